@@ -22,6 +22,22 @@ Definition obs_of_result (r : result) (s' : state) : wobs :=
   | Failed => {| w_st := 2; w_val := 0; w_live := mask_live s' |}
   | Impossible => {| w_st := 0; w_val := 0; w_live := mask_live s' |}
   end.
+(* the extended operations (refusals, consumed arguments) *)
+Definition opr_of (o : wopr) : option op :=
+  match o with
+  | WB w => op_of w
+  | WCreateRefused v sl => Some (CreateRefused v sl)
+  | WBuildMove u hs => Some (BuildMove u hs)
+  | WInsertMove a b => Some (InsertMove a b) end.
+Definition wexecr (o : wopr) (s : state) : state * result :=
+  match opr_of o with Some o' => exec o' s | None => (s, Impossible) end.
+Fixpoint run_wr (s : state) (ops : list wopr) {struct ops} : list wobs :=
+  match ops with
+  | [] => []
+  | o :: t => let '(s', r) := wexecr o s in obs_of_result r s' :: run_wr s' t
+  end.
+Definition run_C12r (ops : list wopr) : list wobs := run_wr init ops.
+
 Fixpoint run_w (s : state) (ops : list wop) {struct ops} : list wobs :=
   match ops with
   | [] => []
@@ -42,11 +58,17 @@ Definition wop_of (c a b : N) : wop :=
   | 5 => WSnap (N.to_nat a)
   | 6 => WDropH (N.to_nat a)
   | _ => WNop end.
-Fixpoint ops_of (l : list N) {struct l} : list wop :=
+Definition wopr_of (c a b : N) : wopr :=
+  match c with
+  | 7 => WCreateRefused (a mod 9) b
+  | 8 => WBuildMove (16 <=? b) (unpack5 (N.to_nat (N.min (b mod 16) 8)) a)
+  | 9 => WInsertMove (N.to_nat a) (N.to_nat b)
+  | _ => WB (wop_of c a b) end.
+Fixpoint ops_of (l : list N) {struct l} : list wopr :=
   match l with
   | c :: r => match r with
       | a :: r1 => match r1 with
-          | b :: r2 => wop_of c a b :: ops_of r2
+          | b :: r2 => wopr_of c a b :: ops_of r2
           | [] => [] end
       | [] => [] end
   | [] => [] end.
@@ -63,10 +85,11 @@ Fixpoint obs_of (l : list N) {struct l} : option (list wobs) :=
   end.
 Definition enc_obs (l : list wobs) : list N := flat_map (fun b => [w_st b; w_val b; w_live b]) l.
 (* slots must keep guest addresses far below 2^64 *)
-Fixpoint slots_ok (l : list wop) {struct l} : bool :=
+Fixpoint slots_ok (l : list wopr) {struct l} : bool :=
   match l with
   | [] => true
-  | WCreate _ sl :: t => (sl <? 4294967296) && slots_ok t
+  | WB (WCreate _ sl) :: t => (sl <? 4294967296) && slots_ok t
+  | WCreateRefused _ sl :: t => (sl <? 4294967296) && slots_ok t
   | _ :: t => slots_ok t end.
 
 Definition suite_C12 (inp obs : list tok) : verdict :=
@@ -76,7 +99,7 @@ Definition suite_C12 (inp obs : list tok) : verdict :=
       | Some ob =>
           let ops := ops_of l in
           if slots_ok ops then
-          {| v_model := [TL (enc_obs (run_C12 ops))]; v_ok := ok_C12 ops ob; v_wellformed := true |}
+          {| v_model := [TL (enc_obs (run_C12r ops))]; v_ok := ok_C12r ops ob; v_wellformed := true |}
           else malformed
       | None => malformed end
   | _, _ => malformed end.
